@@ -1009,6 +1009,17 @@ def _cryptosign(o, R, a):
             res2 = _result(fw, au.on_challenge(sess, types.Challenge(method, {"challenge": chal})))
             if au.authextra.get("pubkey") != pub.hex():
                 o.bad("C19|cryptosign|authextra|pubkey-mismatch", "%s: %r" % (what, au.authextra), ra)
+            # the SAME authenticator object answers on later connections (an application keeps it
+            # across reconnects): each answer is bound to the channel of ITS connection
+            reuse = []
+            if cid is not None:
+                for k_ in (1, 2):
+                    cid2 = bytes((x + 17 * k_) & 0xFF for x in cid)
+                    sess2 = _session({"tls-unique": cid2})
+                    o.evals += 1
+                    r3 = _result(fw, au.on_challenge(sess2, types.Challenge(method, {"challenge": chal})))
+                    reuse.append((cid2, r3))
+                o.stats["cryptosign_authenticator_reused"] = o.stats.get("cryptosign_authenticator_reused", 0) + 1
         except Exception as e:
             o.bad("C19|cryptosign|sign_challenge|%s" % _exc(e), "%s: %r" % (what, e), ra)
             continue
@@ -1031,6 +1042,13 @@ def _cryptosign(o, R, a):
             elif r_[:128] != R.ed_sign(seed, msg).hex():
                 o.bad("C19|cryptosign|%s|not-rfc8032-signature" % label, "%s: got %s" % (what, r_[:128]), ra)
                 bad = True
+        for cid2, r3 in reuse:
+            if type(r3) != str or len(r3) != 192 or not R.cryptosign_verify(pub, chal, cid2, r3):
+                o.bad("C19|cryptosign|on_challenge|reused-authenticator-wrong-channel",
+                      "%s: the same authenticator on a later connection with channel id %s answered %s..., "
+                      "which does not verify for that channel" % (what, cid2.hex(), str(r3)[:40]), ra)
+                bad = True
+                break
         if bad:
             continue
         o.stats["cryptosign:accepted"] += 1
